@@ -156,6 +156,7 @@ type Report struct {
 	MinConcl  float64 // floor: fraction of planned cases that must be conclusive
 	sampleCap int
 	rejects   map[string]int
+	auditSigs map[string]bool
 }
 
 type unk struct {
@@ -193,6 +194,10 @@ func (r *Report) Add(cases []Case, outs []Outcome) {
 				r.CellViol[o.Cell]++
 			}
 			for _, v := range o.Viols {
+				if r.auditSigs == nil {
+					r.auditSigs = map[string]bool{}
+				}
+				r.auditSigs[v.Sig] = true
 				if f := r.Findings.MatchKnown(r.Prop, v.Sig); f != nil {
 					f.Hits++
 					if f.Sample == "" {
@@ -244,8 +249,63 @@ func writeReplay(env *Env, prop string, v Violation, c Case) string {
 
 // Finish writes evidence, prints the verdict lines and returns the exit code:
 // 0 held on everything explored, 1 violation, 2 inconclusive.
+// auditOverbroad (development aid, VERIF_AUDIT=1): a listed pattern should
+// absorb only signatures of cells that fail on the unchanged tree.  For every
+// cell in which every case HELD, build the signatures a failure of that cell
+// would have (with each kind seen in this run) and report the patterns that
+// would swallow them: a regression in such a cell would go unnoticed.
+func (r *Report) auditOverbroad() {
+	build := func(cell, kind string) string { return r.Prop + "|" + cell + "|" + kind }
+	kindOf := func(sig string) string { f := strings.Split(sig, "|"); return f[len(f)-1] }
+	if r.Prop == "C07" {
+		// cell "MN shape m16" <-> signature C07|kind|m16|MN shape
+		build = func(cell, kind string) string {
+			i := strings.LastIndex(cell, " m")
+			if i < 0 {
+				return ""
+			}
+			return "C07|" + kind + "|" + cell[i+1:] + "|" + cell[:i]
+		}
+		kindOf = func(sig string) string {
+			f := strings.Split(sig, "|")
+			if len(f) > 1 {
+				return f[1]
+			}
+			return ""
+		}
+	}
+	kinds := map[string]bool{}
+	for sig := range r.auditSigs {
+		kinds[kindOf(sig)] = true
+	}
+	n := map[string]int{}
+	for cell, tot := range r.Cells {
+		if r.CellViol[cell] > 0 || tot == 0 {
+			continue
+		}
+		for k := range kinds {
+			sig := build(cell, k)
+			if sig == "" {
+				continue
+			}
+			if f := r.Findings.MatchKnown(r.Prop, sig); f != nil {
+				n[f.ID]++
+				if n[f.ID] <= 6 {
+					fmt.Printf("OVERBROAD %s would absorb %s (every case of that cell holds)\n", f.ID, sig)
+				}
+			}
+		}
+	}
+	for id, c := range n {
+		fmt.Printf("OVERBROAD-TOTAL %s %d\n", id, c)
+	}
+}
+
 func (r *Report) Finish() int {
 	env := r.Env
+	if os.Getenv("VERIF_AUDIT") != "" {
+		r.auditOverbroad()
+	}
 	// known findings of this property: one line each, when observed in this run
 	var stale []string
 	for _, f := range r.Findings.ForProp(r.Prop) {
